@@ -316,6 +316,29 @@ func corrProv(seed uint64, n int, tier string, out string, replay string) {
 				}
 			}
 		}
+		// `helm pull URL` (action.Pull): --verify, --prov, and both together (--verify wins: the chart is verified)
+		if idx%4 == 2 || idx < 5 {
+			for _, fl := range []struct {
+				name          string
+				verify, later bool
+			}{{"verify", true, false}, {"prov", false, true}, {"verify+prov", true, true}, {"none", false, false}} {
+				os.RemoveAll(dlDest)
+				os.MkdirAll(dlDest, 0o755)
+				var perr error
+				safely(func() {
+					st := cli.New()
+					st.RepositoryCache, st.RepositoryConfig = filepath.Join(dir, "cache"), repoCfg
+					pl := action.NewPull(action.WithConfig(&action.Configuration{}))
+					pl.Settings, pl.DestDir, pl.Verify, pl.VerifyLater, pl.Keyring = st, dlDest, fl.verify, fl.later, ring
+					_, perr = pl.Run(srv.URL + "/" + name)
+				})
+				wantErr := verr != nil && fl.verify
+				rep.H("pull:" + fl.name + ":" + map[bool]string{true: "error", false: "ok"}[perr != nil])
+				if (perr != nil) != wantErr {
+					rep.Issue(Issue{Kind: "monitor", Fingerprint: "C17:pull-verify:" + fl.name, What: fmt.Sprintf("helm pull with %s returned %v although Signatory.Verify says %v", fl.name, perr, verr), Case: cs, Seed: seed, Index: idx})
+				}
+			}
+		}
 		// install path with --repo: the chart is looked up in the repository's index and downloaded
 		if idx%4 == 1 || idx < 5 {
 			os.WriteFile(filepath.Join(work, "index.yaml"), []byte(fmt.Sprintf("apiVersion: v1\nentries:\n  mychart:\n  - name: mychart\n    version: 1.2.3\n    apiVersion: v2\n    urls:\n    - %q\n", name)), 0o644)
